@@ -239,6 +239,8 @@ def run_case(c):
         m = gen.build_bqm(desc, dtype=dtype)
         if kind == 'view':
             # evaluate through the live view of the other vartype: samples are in the view's domain
+            base_obs = gen.observe(m)
+            view_dir = 'Gen_View.SpinOverBin' if m.vartype is dimod.BINARY else 'Gen_View.BinOverSpin'
             m = m.spin if m.vartype is dimod.BINARY else m.binary
             other = {0: -1, 1: 1, -1: 0}
             conv = (lambda x: 2 * x - 1) if m.vartype is dimod.SPIN else (lambda x: (x + 1) // 2)
@@ -298,6 +300,9 @@ def run_case(c):
         rvts = clist([target.vartype(v).name for v in target.variables])
         raw = f"(Adj.mkQM {rlin} {radj} {cq(F(target.offset))} {rvts})"
         extra.append(f"(CyCase {cnat(len(T))} {cobs} {raw} {vars_} {ls} {crows} {seen})")
+    elif kind == 'view' and seen != "None":
+        # VartypeView.energies: sample conversion + base energies, on the coefficients the BASE reports
+        extra.append(f"(ViewE {view_dir} {coq_obs(base_obs, T)} {ls} {crows} {seen[6:-1]})")
     elif kind == 'bqmobj':
         # pyBQM.energies on the observed dict-of-dicts (insertion order kept, diagonal = linear bias)
         adj = clist([cpair(cnat(T.idx(u)), clist([cpair(cnat(T.idx(v)), cq(F(b))) for v, b in Nu.items()]))
